@@ -74,6 +74,10 @@ func (n *rnode) coq() string {
 	case "dot":
 		return "DOT"
 	case "class":
+		if n.esc != "" {
+			// by its letter: the model has its own definition of the escape classes (Base/RegexEsc.v)
+			return fmt.Sprintf("(ESC %d%%N)", n.esc[1])
+		}
 		var rs []string
 		for _, r := range n.rs {
 			rs = append(rs, fmt.Sprintf("(%d,%d)", r[0], r[1]))
